@@ -118,6 +118,13 @@ CHECKS = {
             "suffix): P c M N. S must equal P c M c^N S, N@r (and @@) must equal the register body typed N times; compared on the written file, "
             "the cursor marker and a dump of registers a b r \" 1 2.",
             "No model: both sides are the real editor; F12 (a . or @ inside a macro followed by more keys) is documented and not generated.", "3/C09"),
+    "C19": ("exploration", "differential property-based testing through a VT100 emulator: incremental drawing vs full repaint vs written buffer",
+            "Generated key sequences (motions, scrolls, edits, undo/redo, ex and window commands) over buffers/lines shorter and longer than "
+            "windows of 3x10..40x120: the terminal stream up to a deterministic marker is interpreted by models/term.py; text rows must equal "
+            "those after ^L, must be lines [t,t+rows) of the written buffer under one horizontal offset with ~ filler, and the terminal cursor "
+            "must be on the cells of the cursor character.",
+            "ASCII/tab/accented/CJK text only; attributes ignored; split screens: only the active window is compared with the buffer "
+            "(stale inactive window = known finding F24).", "3/C19"),
 }
 
 ALL = ["C%02d" % i for i in range(1, 21)]
